@@ -444,4 +444,212 @@ Section Rank.
     intros G Hlo Hhi. destruct (good_ends mn mx cs cw G) as (_ & M0 & Ml & _).
     split; apply Ge; [rewrite M0|unfold last_c; rewrite Ml]; auto.
   Qed.
+
+  (* the tail formulas of get_quantile are guarded by first / last weight > 1, which never holds *)
+  Theorem quantile_tail_unreachable mn mx cs cw : Good mn mx cs cw ->
+    nltb QO (n1 QO) (nofZ QO (wt (nthc cs 0))) = false /\ nltb QO (n1 QO) (nofZ QO (wt (last_c QO cs (dflt QO)))) = false.
+  Proof.
+    intro G. destruct (good_ends mn mx cs cw G) as (_ & _ & _ & W0 & Wl & _). unfold last_c. rewrite W0, Wl. split; reflexivity.
+  Qed.
+
+  (* ---- the public get_rank on any digest satisfying the invariant ---- *)
+  Notation Inv := (Inv ln pinf ninf).
+
+  Lemma nltb_eq_r a b c : b == c -> nltb QO a b = nltb QO a c.
+  Proof. intro H. change (negb (Qle_bool b a) = negb (Qle_bool c a)). rewrite H. reflexivity. Qed.
+  Lemma nltb_eq_l a b c : b == c -> nltb QO b a = nltb QO c a.
+  Proof. intro H. change (negb (Qle_bool a b) = negb (Qle_bool a c)). rewrite H. reflexivity. Qed.
+
+  Lemma inv_nonempty s vs : Inv s vs -> td_is_empty QO s = false -> vs <> [].
+  Proof. intros I H X. apply (i_empty _ _ _ _ _ I) in X. congruence. Qed.
+
+  Lemma compress_min_max s vs : Inv s vs -> td_is_empty QO s = false ->
+    t_min QO (td_compress QO s) == t_min QO s /\ t_max QO (td_compress QO s) == t_max QO s /\ t_min QO s <= t_max QO s.
+  Proof.
+    intros I Hne. pose proof (inv_nonempty s vs I Hne) as Hvs. pose proof (Inv_compress ln pinf ninf s vs I) as I'.
+    destruct (i_gmin _ _ _ _ _ I Hvs) as [(x & Hx & Ex) Lx]. destruct (i_gmin _ _ _ _ _ I' Hvs) as [(x' & Hx' & Ex') Lx'].
+    destruct (i_gmax _ _ _ _ _ I Hvs) as [(y & Hy & Ey) Ly]. destruct (i_gmax _ _ _ _ _ I' Hvs) as [(y' & Hy' & Ey') Ly'].
+    split; [|split].
+    - apply Qle_antisym; [rewrite <- Ex; apply Lx'; exact Hx|rewrite <- Ex'; apply Lx; exact Hx'].
+    - apply Qle_antisym; [rewrite <- Ey'; apply Ly; exact Hy'|rewrite <- Ey; apply Ly'; exact Hy].
+    - eapply Qle_trans; [apply (Lx x Hx)|]. apply Ly. exact Hx.
+  Qed.
+
+  Definition count (s : td QO) : nat := (length (t_cents QO s) + length (t_buf QO s))%nat.
+
+  (* the four ways get_rank answers on a non-empty digest *)
+  Lemma td_rank_cases s vs v : Inv s vs -> td_is_empty QO s = false ->
+    let s' := td_compress QO s in
+    (v < t_min QO s /\ snd (td_rank QO s v) = Some 0) \/
+    (t_min QO s <= v /\ t_max QO s < v /\ snd (td_rank QO s v) = Some 1) \/
+    (t_min QO s <= v /\ v <= t_max QO s /\ count s = 1%nat /\ snd (td_rank QO s v) = Some (nhalf QO)) \/
+    (t_min QO s <= v /\ v <= t_max QO s /\ count s <> 1%nat /\
+     snd (td_rank QO s v) = rank_core QO (t_min QO s') (t_max QO s') (t_cents QO s') (t_cw QO s') v).
+  Proof.
+    intros I Hne. cbv zeta. unfold td_rank. rewrite Hne. change (nisnan QO v) with false. cbv iota.
+    destruct (nltb QO v (t_min QO s)) eqn:A.
+    { left. apply Lt in A. split; [exact A|reflexivity]. }
+    apply Ge in A. destruct (nltb QO (t_max QO s) v) eqn:B.
+    { right. left. apply Lt in B. repeat split; auto. }
+    apply Ge in B. right. right. fold (count s). destruct (Nat.eqb_spec (count s) 1) as [C|C].
+    - left. repeat split; auto.
+    - right. repeat split; auto.
+  Qed.
+
+  Theorem td_rank_range s vs v r : Inv s vs -> snd (td_rank QO s v) = Some r ->
+    0 <= r /\ r <= 1 /\ (v < t_min QO s -> r == 0) /\ (t_max QO s < v -> r == 1).
+  Proof.
+    intros I H.
+    assert (Hne : td_is_empty QO s = false).
+    { destruct (td_is_empty QO s) eqn:E; auto. unfold td_rank in H. rewrite E in H. discriminate. }
+    destruct (compress_min_max s vs I Hne) as (Emin & Emax & Hmm).
+    destruct (td_rank_cases s vs v I Hne) as [(A & E)|[(A & B & E)|[(A & B & C & E)|(A & B & C & E)]]]; rewrite E in H.
+    - inversion H; subst r. repeat split; intros; lra.
+    - inversion H; subst r. repeat split; intros; lra.
+    - inversion H; subst r. change (inject_Z 1 / inject_Z 2) with (1 # 2). change (num QO) with Q in *. repeat split; intros; lra.
+    - pose proof (compress_Good ln pinf ninf s vs I Hne) as G. cbv zeta in G.
+      destruct (rank_core_range _ _ _ _ v r G) as [R1 R2]; auto; try lra.
+      all: repeat split; intros; lra.
+  Qed.
+
+  Theorem td_rank_mono s vs v1 v2 r1 r2 : Inv s vs -> v1 <= v2 ->
+    snd (td_rank QO s v1) = Some r1 -> snd (td_rank QO s v2) = Some r2 -> r1 <= r2.
+  Proof.
+    intros I H12 H1 H2.
+    assert (Hne : td_is_empty QO s = false).
+    { destruct (td_is_empty QO s) eqn:E; auto. unfold td_rank in H1. rewrite E in H1. discriminate. }
+    destruct (td_rank_range s vs v1 r1 I H1) as (L1 & U1 & _). destruct (td_rank_range s vs v2 r2 I H2) as (L2 & U2 & _).
+    destruct (compress_min_max s vs I Hne) as (Emin & Emax & Hmm).
+    destruct (td_rank_cases s vs v1 I Hne) as [(A & E)|[(A & B & E)|[(A & B & C & E)|(A & B & C & E)]]]; rewrite E in H1.
+    - inversion H1; subst r1. exact L2.
+    - inversion H1; subst r1.
+      destruct (td_rank_cases s vs v2 I Hne) as [(A' & E')|[(A' & B' & E')|[(A' & B' & C' & E')|(A' & B' & C' & E')]]];
+        rewrite E' in H2; try (exfalso; lra).
+      inversion H2; subst r2. apply Qle_refl.
+    - destruct (td_rank_cases s vs v2 I Hne) as [(A' & E')|[(A' & B' & E')|[(A' & B' & C' & E')|(A' & B' & C' & E')]]];
+        rewrite E' in H2; try (exfalso; lra).
+      + inversion H2; subst r2. exact U1.
+      + inversion H1; inversion H2; subst. apply Qle_refl.
+      + contradiction.
+    - destruct (td_rank_cases s vs v2 I Hne) as [(A' & E')|[(A' & B' & E')|[(A' & B' & C' & E')|(A' & B' & C' & E')]]];
+        rewrite E' in H2; try (exfalso; lra).
+      + inversion H2; subst r2. exact U1.
+      + contradiction.
+      + pose proof (compress_Good ln pinf ninf s vs I Hne) as G. cbv zeta in G.
+        eapply (rank_core_mono _ _ _ _ v1 v2); eauto; lra.
+  Qed.
+
+  (* inside [min, max] on a digest with more than one point, get_rank runs the interpolation with both tail tests false *)
+  Theorem td_rank_tails_unreachable s vs v : Inv s vs -> td_is_empty QO s = false ->
+    t_min QO s <= v -> v <= t_max QO s ->
+    let s' := td_compress QO s in
+    nltb QO v (mean (nthc (t_cents QO s') 0)) = false /\ nltb QO (mean (last_c QO (t_cents QO s') (dflt QO))) v = false.
+  Proof.
+    intros I Hne A B. cbv zeta. destruct (compress_min_max s vs I Hne) as (Emin & Emax & _).
+    pose proof (compress_Good ln pinf ninf s vs I Hne) as G. cbv zeta in G.
+    apply (rank_tail_unreachable _ _ _ _ v G); lra.
+  Qed.
+
+  (* ---- get_rank does not depend on whether the buffer has been flushed: get_CDF / get_PMF are get_rank ---- *)
+  Lemma sumw_ge_length (l : list cq) : wpos l -> (Z.of_nat (length l) <= sumw QO l)%Z.
+  Proof.
+    induction 1 as [|x l Hx _ IH]; [reflexivity|].
+    change (sumw QO (x :: l)) with (wt x + sumw QO l)%Z. cbn [length]. lia.
+  Qed.
+
+  Lemma count_one_iff s vs : Inv s vs -> td_is_empty QO s = false -> (count s = 1%nat <-> td_total QO s = 1%Z).
+  Proof.
+    intros I Hne. pose proof (i_w _ _ _ _ _ I) as W. pose proof (i_c _ _ _ _ _ I) as C. unfold WInv in W.
+    unfold count, td_total, blen. rewrite W. pose proof (sumw_ge_length _ (ci_pos _ _ _ _ C)) as Hge.
+    unfold td_is_empty in Hne. split; intro H.
+    - destruct (t_cents QO s) as [|c [|c2 t]] eqn:Ec; destruct (t_buf QO s) as [|b [|b2 bt]] eqn:Eb; simpl in H; try lia; try discriminate.
+      + reflexivity.
+      + pose proof (ci_first _ _ _ _ C c [] eq_refl) as L. unfold light in L.
+        change (sumw QO [c]) with (wt c + 0)%Z. cbn [length]. lia.
+    - destruct (t_cents QO s) as [|c t] eqn:Ec; destruct (t_buf QO s) as [|b bt] eqn:Eb; try discriminate; cbn [length] in *; lia.
+  Qed.
+
+  Lemma compress_idem (s : td QO) : td_compress QO (td_compress QO s) = td_compress QO s.
+  Proof. unfold td_compress at 1. rewrite (compress_buf ln pinf ninf). reflexivity. Qed.
+
+  Lemma is_empty_compress s vs : Inv s vs -> td_is_empty QO (td_compress QO s) = td_is_empty QO s.
+  Proof.
+    intro I. pose proof (Inv_compress ln pinf ninf s vs I) as I'.
+    destruct (td_is_empty QO s) eqn:A; destruct (td_is_empty QO (td_compress QO s)) eqn:B; auto.
+    - apply (i_empty _ _ _ _ _ I) in A. apply (i_empty _ _ _ _ _ I') in A. congruence.
+    - apply (i_empty _ _ _ _ _ I') in B. apply (i_empty _ _ _ _ _ I) in B. congruence.
+  Qed.
+
+  Lemma td_rank_compress s vs v : Inv s vs -> snd (td_rank QO (td_compress QO s) v) = snd (td_rank QO s v).
+  Proof.
+    intro I. pose proof (Inv_compress ln pinf ninf s vs I) as I'. pose proof (is_empty_compress s vs I) as He.
+    destruct (td_is_empty QO s) eqn:Hne.
+    - unfold td_rank. rewrite He, Hne. reflexivity.
+    - destruct (compress_min_max s vs I Hne) as (Emin & Emax & Hmm).
+      assert (Hc : count (td_compress QO s) = 1%nat <-> count s = 1%nat).
+      { rewrite (count_one_iff _ vs I' He), (count_one_iff s vs I Hne), blen_total_compress. tauto. }
+      pose proof (td_rank_cases _ vs v I' He) as X'. cbv zeta in X'. rewrite compress_idem in X'.
+      destruct (td_rank_cases s vs v I Hne) as [(A & E)|[(A & B & E)|[(A & B & C & E)|(A & B & C & E)]]];
+        destruct X' as [(A' & E')|[(A' & B' & E')|[(A' & B' & C' & E')|(A' & B' & C' & E')]]];
+        rewrite E, E'; first [reflexivity | exfalso; lra | exfalso; tauto].
+  Qed.
+
+  Definition rank_of (s : td QO) (v : Q) : option Q := snd (td_rank QO s v).
+
+  Lemma ranks_spec : forall l s vs s2 rs, Inv s vs -> ranks QO s l = (s2, Some rs) ->
+    Forall2 (fun v r => rank_of s v = Some r) l rs.
+  Proof.
+    induction l as [|x t IH]; intros s vs s2 rs I H; cbn [ranks] in H.
+    - inversion H. constructor.
+    - pose proof (rank_state ln pinf ninf s x) as St. pose proof (Inv_rank ln pinf ninf s vs x I) as I1.
+      destruct (td_rank QO s x) as [s1 [r|]] eqn:E1; [|discriminate]. cbn [fst] in St, I1.
+      destruct (ranks QO s1 t) as [s3 [rs'|]] eqn:E2; [|discriminate]. inversion H; subst s3 rs. clear H.
+      constructor.
+      + unfold rank_of. rewrite E1. reflexivity.
+      + pose proof (IH s1 vs s2 rs' I1 E2) as F.
+        destruct St as [->| ->]; [exact F|].
+        clear -F I. induction F as [|a b la lb Hab _ IHF]; constructor; auto.
+        unfold rank_of in *. rewrite <- (td_rank_compress s vs a I). exact Hab.
+  Qed.
+
+  Theorem td_cdf_spec s vs l out : Inv s vs -> snd (td_cdf QO s l) = Some out ->
+    exists rs, out = rs ++ [1] /\ Forall2 (fun v r => rank_of s v = Some r) l rs.
+  Proof.
+    intros I H. unfold td_cdf in H. destruct (td_is_empty QO s); [discriminate|].
+    destruct (split_ok QO l); [|discriminate].
+    destruct (ranks QO s l) as [s2 [rs|]] eqn:E; [|discriminate]. cbn [snd] in H. inversion H.
+    exists rs. split; [reflexivity|]. eapply ranks_spec; eauto.
+  Qed.
+
+  Fixpoint qsum (l : list Q) : Q := match l with [] => 0 | x :: t => x + qsum t end.
+
+  Lemma last_cons_Q : forall (t : list Q) c d, last (c :: t) d = last t c.
+  Proof.
+    induction t as [|a t IH]; intros c d; [reflexivity|].
+    change (last (c :: a :: t) d) with (last (a :: t) d). rewrite (IH a d), (IH a c). reflexivity.
+  Qed.
+
+  Lemma diffs_sum : forall (l : list Q) prev, qsum (diffs QO prev l) == last l prev - prev.
+  Proof.
+    induction l as [|x t IH]; intro prev; cbn [diffs qsum].
+    - cbn [last]. lra.
+    - rewrite IH. change (nsub QO x prev) with (x - prev).
+      assert (E : last (x :: t) prev = last t x) by apply last_cons_Q.
+      rewrite E. lra.
+  Qed.
+
+  (* get_PMF returns the first differences of get_CDF; they sum to 1 *)
+  Theorem td_pmf_spec s vs l p : Inv s vs -> snd (td_pmf QO s l) = Some p ->
+    exists c0 ct, snd (td_cdf QO s l) = Some (c0 :: ct) /\ p = c0 :: diffs QO c0 ct /\ qsum p == 1.
+  Proof.
+    intros I H. unfold td_pmf in H.
+    destruct (td_cdf QO s l) as [s2 [[|c0 ct]|]] eqn:E; cbn [snd] in *; try discriminate.
+    - destruct (td_cdf_spec s vs l [] I) as (rs & Hrs & _); [rewrite E; reflexivity|]. destruct rs; discriminate.
+    - inversion H. exists c0, ct. split; [reflexivity|]. split; [reflexivity|].
+      destruct (td_cdf_spec s vs l (c0 :: ct) I) as (rs & Hrs & _); [rewrite E; reflexivity|].
+      pose proof (diffs_sum ct c0) as D. pose proof (last_cons_Q ct c0 c0) as L0.
+      assert (L : last (c0 :: ct) c0 = 1) by (rewrite Hrs; apply last_last).
+      change (num QO) with Q in *. rewrite L in L0. rewrite <- L0 in D.
+      cbn [qsum]. rewrite D. lra.
+  Qed.
 End Rank.
